@@ -115,7 +115,7 @@ class History:
         rec['exc'] = exc
 
 
-def gen_program(tape, phase, special):
+def gen_program(tape, phase, special, force_focus=None):
     """Programs for the concurrent phase: <=2 processes x <=2 threads, <=3 ops each."""
     first = tape.draw(NPOOL, 'pool.first')
     chosen = [first]
@@ -135,6 +135,8 @@ def gen_program(tape, phase, special):
     focus = tape.draw(8, 'focus')        # 4: log-heavy; 3/5: one hot key; 6: dataset churn; 7: fresh bare database
     if focus == 5:
         focus = 3
+    if force_focus is not None:
+        focus = force_focus
     if focus == 7:
         # first use of a fresh, bare database by several threads and processes, each operation
         # through a database handle of its own
@@ -247,7 +249,7 @@ def run_one(cfg, tape, want_trace=False):
     base.quiet(base._P['Ctx']('ctx', ref=root, common_options=base.COMMON_OPTIONS))
     try:
         for phase in range(nphases):
-            prog = gen_program(tape, phase, special)
+            prog = gen_program(tape, phase, special, cfg.get('focus'))
             for m in prog['models']:
                 if m not in all_models:
                     all_models.append(m)
@@ -314,6 +316,23 @@ def run_one(cfg, tape, want_trace=False):
 
             CtxOf = {}
             alive = set()
+            def kernel_agrees(k=k, simos=simos):
+                # at every scheduler step: a thread inside a locked section is backed by a record
+                # lock of its process in the (simulated) kernel - "a held lock is never released
+                # by unrelated activity", e.g. by somebody else's open+close of the lock file
+                for (vt, inode, shared) in holds:
+                    if vt.killed or vt.pid in k.dead_pids:
+                        continue
+                    lk = simos.locks.get(inode, {}).get(vt.pid)
+                    if lk is None or (not shared and lk != 'X'):
+                        V.viol('lock-exclusion',
+                               f'{vt.name} is inside a section locked '
+                               f'{"shared" if shared else "exclusively"} on {os.path.basename(inode)} '
+                               f'but its process holds {lk} in the kernel (released by unrelated activity)')
+                        k.stop = True
+                        return
+
+            k.on_step = kernel_agrees
             for tspec in prog['threads']:
                 pid = pid_base + tspec['pid']
                 tspec['rpid'] = pid
